@@ -20,6 +20,8 @@ mod notify;
 
 pub use ctl::main as ctl_main;
 pub use daemon::main as daemon_main;
+#[cfg(pendulum_project_ntpd_rs_verif)]
+pub use daemon::verif_hook;
 pub use metrics::exporter::main as metrics_exporter_main;
 
 #[cfg(test)]
